@@ -6,8 +6,19 @@
 //    seek flushes first (std's documented behaviour); sync_data has no functional effect in the model (durability = reached the disk array);
 //  * crc32 is SOME deterministic function of all bytes fed to the hasher in order (model: rotate-xor rolling hash, linear over GF(2) so that
 //    CBMC can relate two evaluations; every single-bit change of an equal-length message changes it); zstd decode(compress(d)) == d, compress may EXPAND by MODEL_ZSTD_OVERHEAD bytes.
+/// std::io::Error is a bit-packed tagged pointer with a boxed trait object behind it; symbolic execution of its construction and
+/// drop glue dominated CBMC's memory. The model is a plain enum carrying the kind.
+pub mod io {
+    #[derive(Debug, Clone, Copy, PartialEq, Eq)]
+    pub enum ErrorKind { UnexpectedEof, InvalidData, InvalidInput, WriteZero, Other }
+    #[derive(Debug)]
+    pub struct Error(pub ErrorKind);
+    impl Error { pub fn new<E>(k: ErrorKind, _e: E) -> Error { Error(k) } pub fn kind(&self) -> ErrorKind { self.0 } }
+    impl From<ErrorKind> for Error { fn from(k: ErrorKind) -> Error { Error(k) } }
+    pub type Result<T> = core::result::Result<T, Error>;
+}
 pub mod env {
-    use std::io;
+    use super::io;
     pub const DISK_SIZE: usize = /*DISK*/ 160;
     pub static mut DISK: [u8; DISK_SIZE] = [0u8; DISK_SIZE];
     /// number of sync_data calls and highest length that had reached the disk when sync_data was last called
@@ -99,18 +110,27 @@ pub mod crc32fast {
     }
 }
 pub mod zstd {
+    /// model codec: a run of 7..15 equal bytes shrinks to 2 bytes (tag 0x80 | length, byte); anything else EXPANDS by one
+    /// tag byte (0x5A + data) — both behaviours of a real compressor (compressible / incompressible input) are present
     pub const MODEL_ZSTD_OVERHEAD: usize = 1;
     pub mod bulk {
-        pub fn compress(data: &[u8], _level: i32) -> std::io::Result<Vec<u8>> {
+        pub fn compress(data: &[u8], _level: i32) -> super::super::io::Result<Vec<u8>> {
+            let mut run = data.len() >= 7 && data.len() < 16;
+            let mut i = 1;
+            while i < data.len() { if data[i] != data[0] { run = false; } i += 1; }
             let mut v = Vec::with_capacity(data.len() + 1);
-            v.push(0x5A);
-            v.extend_from_slice(data);
+            if run { v.push(0x80 | data.len() as u8); v.push(data[0]); } else { v.push(0x5A); v.extend_from_slice(data); }
             Ok(v)
         }
     }
     pub mod stream {
-        pub fn copy_decode(src: &[u8], dst: &mut Vec<u8>) -> std::io::Result<()> {
-            if src.is_empty() || src[0] != 0x5A { return Err(std::io::Error::from(std::io::ErrorKind::InvalidData)); }
+        pub fn copy_decode(src: &[u8], dst: &mut Vec<u8>) -> super::super::io::Result<()> {
+            if src.len() == 2 && src[0] & 0x80 != 0 {
+                let n = (src[0] & 0x7F) as usize;
+                if n < 7 || n >= 16 { return Err(super::super::io::Error::from(super::super::io::ErrorKind::InvalidData)); }
+                let mut i = 0; while i < n { dst.push(src[1]); i += 1; } return Ok(());
+            }
+            if src.is_empty() || src[0] != 0x5A { return Err(super::super::io::Error::from(super::super::io::ErrorKind::InvalidData)); }
             dst.extend_from_slice(&src[1..]);
             Ok(())
         }
